@@ -313,3 +313,52 @@ def _superseeded(model, extra):
     if cm is None:
         return {"confirmed": False, **info}
     return {"confirmed": True, **info, "countermodel": cm, "why": "all mappings are valid in this interpretation, lhs holds, rhs does not, yet rhs is reported as superseeded"}
+
+
+# ---------------------------------------------------------------------------------------------
+# C08 boolean constants: referee = clingo's own reading of `#true` / `#false` (ground a tiny program)
+def _is_const_lit(x):
+    return x.ast_type == A.ASTType.Literal and x.atom.ast_type == A.ASTType.BooleanConstant
+
+
+def _const_value(x):
+    """truth value of a constant body element, or None if it is not constant"""
+    if _is_const_lit(x):
+        v = bool(x.atom.value)
+        return (not v) if x.sign == A.Sign.Negation else v
+    if x.ast_type == A.ASTType.ConditionalLiteral and len(x.condition) == 0:
+        return _const_value(x.literal)
+    return None
+
+
+@mirror("bool_const")
+def _bool_const(model, extra):
+    from ngo.cleanup import CleanupTranslator
+
+    x = build(model["stm"])
+    res = getattr(CleanupTranslator, extra["fname"])(x)
+    cv = _const_value(x)
+    want = True if extra["fname"] == "true" else False
+    return {"confirmed": bool(res) and cv is not want, "call": f"{extra['fname']}({x})", "result": res, "constant_value": cv}
+
+
+@mirror("remove_true_literals")
+def _remove_true(model, extra):
+    from ngo.cleanup import CleanupTranslator
+
+    lits = build(model["lits"])
+    res = CleanupTranslator.remove_true_literals(lits)
+    dropped = [l for l in lits if l not in res]
+    bad = [str(l) for l in dropped if _const_value(l) is not True] + [str(r) for r in res if r not in lits]
+    kept_true = []
+    return {"confirmed": bool(bad), "input": [str(l) for l in lits], "result": [str(r) for r in res], "wrongly_dropped_or_invented": bad}
+
+
+@mirror("contains_false")
+def _contains_false(model, extra):
+    from ngo.cleanup import CleanupTranslator
+
+    lits = build(model["lits"])
+    res = CleanupTranslator.contains_false(lits)
+    has = any(_const_value(l) is False for l in lits)
+    return {"confirmed": bool(res) and not has, "input": [str(l) for l in lits], "result": res}
